@@ -1,21 +1,167 @@
 package tan
 
 //vcheck:scale internal/tan/record.go blockSize 64
-//vcheck:bounds tan: record block size scaled from 32 KiB to 64 bytes (records of this harness then straddle block boundaries); one or two replicas; <= 3 saves of <= 3 entries with symbolic terms (1..127), symbolic hard state; close/reopen and crash (all unsynced data dropped) at the points listed per harness
-//vcheck:stub tan: file system = the real lni/vfs strict in-memory FS (SetIgnoreSyncs / ResetToSyncedState for crashes) executed symbolically; goroutines started by the code (the fsync helper of the regular mode) run to completion at the go statement
+//vcheck:bounds tan: record block size scaled from 32 KiB to 64 bytes (records of these harnesses straddle block boundaries); log-file size limit 1 (every save rolls the log file over), 150 or the default; manifest size limit 1 (every version edit starts a new MANIFEST and re-points CURRENT), 60 or the default; two replicas of one shard (same multiplexed db / two regular dbs); an initial save of 1..2 entries per replica followed by <= 2 (quick) / 3 (thorough) operations out of: append / conflicting overwrite of <= 2 entries, vote-only, commit-only and term changes of the hard state, snapshot records, both replicas in one call, RemoveEntriesTo, RemoveNodeData; entry terms symbolic (1..127); close/reopen and crash (all unsynced data dropped) before a symbolic fsync
+//vcheck:stub tan: file system = the real lni/vfs strict in-memory FS behind lni/vfs ErrorFS (whose injector is the crash clock / I/O-error source), executed symbolically; goroutines started by the code (the fsync helper of the regular mode) run to completion at the go statement; the background delete-obsolete-files worker is not started, its body (deleteObsoleteFiles) is called by the harness at symbolic points instead
+//vcheck:assume tan: a crash drops exactly the data not covered by a completed fsync of the file (contents) or of its directory (name), as lni/vfs StrictMem defines it; torn writes that persist part of an unsynced tail are outside the claim
 
 import (
 	"github.com/lni/dragonboat/v4/config"
-	"github.com/lni/dragonboat/v4/internal/vfs"
+	"github.com/lni/dragonboat/v4/raftio"
 	pb "github.com/lni/dragonboat/v4/raftpb"
+	gvfs "github.com/lni/vfs"
 )
 
-func vTanConfig(fs vfs.IFS) config.NodeHostConfig {
+// vInj is the lni/vfs ErrorFS injector used as crash clock and error source.
+type vInj struct {
+	mem     *gvfs.MemFS
+	syncs   int
+	crashAt int // crash right before fsync number crashAt (0-based); < 0: never
+	crashed bool
+	ops     int
+	failAt  int // fail mutating operation number failAt (0-based); < 0: never
+	failed  bool
+	armed   bool
+}
+
+func (j *vInj) MaybeError(op gvfs.Op) error {
+	if op == gvfs.OpSync {
+		if !j.crashed && j.crashAt >= 0 && j.syncs == j.crashAt {
+			j.crashed = true
+			j.mem.SetIgnoreSyncs(true)
+		}
+		j.syncs++
+	}
+	if j.armed && (op == gvfs.OpSync || op == gvfs.OpWrite) {
+		if j.ops == j.failAt {
+			j.ops++
+			j.failed = true
+			return gvfs.ErrInjected
+		}
+		j.ops++
+	}
+	return nil
+}
+
+type vTanEnv struct {
+	mem         *gvfs.MemFS
+	inj         *vInj
+	fs          gvfs.FS
+	regular     bool
+	logMax      int64
+	manifestMax int64
+}
+
+func vNewTanEnv() *vTanEnv {
+	mem := gvfs.NewStrictMem()
+	inj := &vInj{mem: mem, crashAt: -1, failAt: -1}
+	env := &vTanEnv{mem: mem, inj: inj, fs: gvfs.Wrap(mem, inj)}
+	env.regular = vBool("regularMode")
+	// quick tier: the two extremes of each limit; thorough adds the middle values
+	switch vChoose("logFileLimit", 2+vTier()) {
+	case 0:
+		env.logMax = 1
+	case 2:
+		env.logMax = 150
+	}
+	switch vChoose("manifestLimit", 2+vTier()) {
+	case 0:
+		env.manifestMax = 1
+	case 2:
+		env.manifestMax = 60
+	}
+	return env
+}
+
+var vTanNodes = [][2]uint64{{1, 1}, {1, 2}}
+
+// open creates the LogDB and opens the per-node dbs exactly as
+// collection.getDB does, but with the size limits chosen for this path.
+func (env *vTanEnv) open() (*LogDB, error) {
 	cfg := config.NodeHostConfig{}
-	cfg.Expert.FS = fs
+	cfg.Expert.FS = env.fs
 	cfg.Expert.LogDB = config.GetTinyMemLogDBConfig()
 	cfg.Expert.LogDB.KVWriteBufferSize = 256
-	return cfg
+	ldb, err := createTan(cfg, nil, []string{"/tan"}, nil, env.regular)
+	if err != nil {
+		return nil, err
+	}
+	c := &ldb.collection
+	for _, n := range vTanNodes {
+		if _, ok := c.keeper.get(n[0], n[1]); ok {
+			continue
+		}
+		dbdir := c.fs.PathJoin(c.dirname, c.keeper.name(n[0], n[1]))
+		if err := c.prepareDir(dbdir); err != nil {
+			return nil, err
+		}
+		d, err := open(dbdir, dbdir, &Options{FS: c.fs, MaxLogFileSize: env.logMax, MaxManifestFileSize: env.manifestMax})
+		if err != nil {
+			return nil, err
+		}
+		c.keeper.set(n[0], n[1], d)
+	}
+	return ldb, nil
+}
+
+// vTanObsolete counts the files waiting for the background worker.
+func vTanObsolete(l *LogDB) int {
+	n := 0
+	l.collection.iterate(func(d *db) error {
+		n += len(d.mu.versions.obsoleteTables) + len(d.mu.versions.obsoleteManifests)
+		return nil
+	})
+	return n
+}
+
+// bgDelete runs what the background worker does when notified.
+func vTanBgDelete(l *LogDB) {
+	l.collection.iterate(func(d *db) error {
+		vAssert(d.deleteObsoleteFiles() == nil, "delete-obsolete-ok")
+		return nil
+	})
+}
+
+// ---------------------------------------------------------------------------
+// reference model of one replica's logical log
+
+type vTanNode struct {
+	shard, replica uint64
+	first          uint64 // index of log[0]
+	log            []pb.Entry
+	state          pb.State
+	hasState       bool
+	ss             pb.Snapshot
+	compactedTo    uint64
+	removed        bool
+	maxTerm        uint64
+}
+
+func (m *vTanNode) clone() *vTanNode {
+	c := *m
+	c.log = append([]pb.Entry(nil), m.log...)
+	return &c
+}
+
+func (m *vTanNode) last() uint64 { return m.first + uint64(len(m.log)) - 1 }
+
+func (m *vTanNode) apply(u pb.Update) {
+	if len(u.EntriesToSave) > 0 {
+		s := u.EntriesToSave[0].Index
+		if len(m.log) == 0 || s > m.last()+1 || s < m.first {
+			m.first = s
+			m.log = nil
+		}
+		keep := int(s - m.first)
+		m.log = append(m.log[:keep:keep], u.EntriesToSave...)
+	}
+	if !pb.IsEmptySnapshot(u.Snapshot) && u.Snapshot.Index > m.ss.Index {
+		m.ss = u.Snapshot
+	}
+	if !pb.IsEmptyState(u.State) {
+		m.state = u.State
+		m.hasState = true
+	}
 }
 
 func vTanEntries(first uint64, n int, minTerm uint64) ([]pb.Entry, uint64) {
@@ -32,30 +178,424 @@ func vTanEntries(first uint64, n int, minTerm uint64) ([]pb.Entry, uint64) {
 	return es, prev
 }
 
-//vcheck: reach=done workers=4 tier=thorough
-func VHarness_C09_TanProbe() {
-	fs := vfs.NewMemFS()
-	cfg := vTanConfig(fs)
-	db, err := CreateLogMultiplexedTan(cfg, nil, []string{"/tan"}, nil)
-	vAssert(err == nil, "open-ok")
-	es, _ := vTanEntries(1, 2, 1)
-	st := pb.State{Term: 3, Vote: 2, Commit: 1}
-	vAssert(db.SaveRaftState([]pb.Update{{ShardID: 1, ReplicaID: 1, State: st, EntriesToSave: es}}, 1) == nil, "save-ok")
-	rs, err := db.ReadRaftState(1, 1, 0)
-	vAssert(err == nil && rs.State.Term == 3 && rs.EntryCount == 2 && rs.FirstIndex == 1, "read-state")
-	got, _, err := db.IterateEntries(nil, 0, 1, 1, 1, 3, 1<<40)
-	vAssert(err == nil && len(got) == 2 && got[0].Term == es[0].Term && got[1].Term == es[1].Term, "read-entries")
-	vAssert(db.Close() == nil, "close-ok")
-	db2, err := CreateLogMultiplexedTan(cfg, nil, []string{"/tan"}, nil)
-	vAssert(err == nil, "reopen-ok")
-	rs, err = db2.ReadRaftState(1, 1, 0)
-	if err != nil {
-		vAssert(false, "E:"+err.Error())
+// vTanFirstSave gives every replica a state record and 1..2 entries.
+func vTanFirstSave(ms []*vTanNode) []pb.Update {
+	var uds []pb.Update
+	for i, m := range ms {
+		n := 2 - i
+		if vTier() > 0 {
+			n = 1 + vChoose("n0", 2)
+		}
+		es, t := vTanEntries(1, n, 1)
+		st := pb.State{Term: t, Vote: vU64("vote0"), Commit: 1}
+		vAssume(st.Vote < 8)
+		m.maxTerm = t
+		uds = append(uds, pb.Update{ShardID: m.shard, ReplicaID: m.replica, State: st, EntriesToSave: es})
 	}
-	vAssert(rs.State.Term == 3, "read-state-after-reopen-term")
-	vAssert(rs.State.Vote == 2, "read-state-after-reopen-vote")
-	vAssert(rs.EntryCount == 2, "read-state-after-reopen-count")
-	got, _, err = db2.IterateEntries(nil, 0, 1, 1, 1, 3, 1<<40)
-	vAssert(err == nil && len(got) == 2 && got[0].Term == es[0].Term && got[1].Term == es[1].Term, "read-entries-after-reopen")
+	return uds
+}
+
+const (
+	vOpEntries = iota
+	vOpVote
+	vOpCommit
+	vOpTerm
+	vOpSnapshot
+	vOpBoth
+	vOpRemoveEntries
+	vOpRemoveNode
+	vOpCount
+)
+
+// vTanUpdate builds a legal update of kind op for replica m (model not yet updated).
+func vTanUpdate(m *vTanNode, op int) pb.Update {
+	u := pb.Update{ShardID: m.shard, ReplicaID: m.replica}
+	switch op {
+	case vOpEntries, vOpBoth:
+		lo := m.first
+		if m.compactedTo >= lo {
+			lo = m.compactedTo + 1
+		}
+		if lo < 2 {
+			lo = 2 // entry 1 is committed by the first save
+		}
+		s := lo + uint64(vChoose("start", int(m.last()+1-lo)+1))
+		minTerm := m.maxTerm
+		if s <= m.last() {
+			minTerm = m.maxTerm + 1 // a conflicting suffix carries a newer term
+			vAssume(minTerm < 128)
+			vReach("overwrite")
+		}
+		es, t := vTanEntries(s, 1+vChoose("n", 2), minTerm)
+		m.maxTerm = t
+		u.EntriesToSave = es
+		if len(es) == 2 { // (ties the two choices together to keep the product small)
+			u.State = pb.State{Term: t, Vote: m.state.Vote, Commit: m.state.Commit}
+		}
+	case vOpVote:
+		v := vU64("vote")
+		vAssume(v < 8)
+		vAssume(v != m.state.Vote)
+		u.State = pb.State{Term: m.state.Term, Vote: v, Commit: m.state.Commit}
+	case vOpCommit:
+		u.State = pb.State{Term: m.state.Term, Vote: m.state.Vote, Commit: m.state.Commit + 1}
+	case vOpTerm:
+		t := vU64("newTerm")
+		vAssume(t > m.state.Term)
+		vAssume(t < 128)
+		if t > m.maxTerm {
+			m.maxTerm = t
+		}
+		u.State = pb.State{Term: t, Vote: 0, Commit: m.state.Commit}
+	case vOpSnapshot:
+		idx := m.last()
+		if vBool("snapshotAhead") {
+			idx += 5 // a snapshot received from the leader, ahead of the local log
+		}
+		vAssume(idx > m.ss.Index)
+		u.Snapshot = pb.Snapshot{ShardID: m.shard, Index: idx, Term: m.maxTerm, Filepath: "/s"}
+		if vBool("withState") {
+			u.State = pb.State{Term: m.state.Term, Vote: m.state.Vote, Commit: idx}
+		}
+	}
+	return u
+}
+
+// vTanStep performs one operation of the workload on the store and on the model.
+func vTanStep(l *LogDB, ms []*vTanNode, ops int) error {
+	op := vChoose("op", ops)
+	a, b := ms[0], ms[1]
+	switch op {
+	case vOpRemoveEntries:
+		lo := a.first
+		if a.compactedTo >= lo {
+			lo = a.compactedTo + 1
+		}
+		vAssume(a.last() > lo)
+		k := lo + uint64(vChoose("removeTo", int(a.last()-lo)))
+		if err := l.RemoveEntriesTo(a.shard, a.replica, k); err != nil {
+			return err
+		}
+		a.compactedTo = k
+		vReach("remove-entries")
+	case vOpRemoveNode:
+		// multiplexed mode: known finding F6 (VHarness_C09_TanMultiplexedRemoveNode)
+		vAssume(!l.collection.multiplexedLog())
+		if err := l.RemoveNodeData(b.shard, b.replica); err != nil {
+			return err
+		}
+		*b = vTanNode{shard: b.shard, replica: b.replica, removed: true}
+		vReach("remove-node")
+	case vOpBoth:
+		vAssume(!b.removed)
+		ua := vTanUpdate(a, vOpEntries)
+		eb, tb := vTanEntries(b.last()+1, 1, b.maxTerm)
+		b.maxTerm = tb
+		ub := pb.Update{ShardID: b.shard, ReplicaID: b.replica, EntriesToSave: eb}
+		if err := l.SaveRaftState([]pb.Update{ua, ub}, 1); err != nil {
+			return err
+		}
+		a.apply(ua)
+		b.apply(ub)
+	default:
+		u := vTanUpdate(a, op)
+		if err := l.SaveRaftState([]pb.Update{u}, 1); err != nil {
+			return err
+		}
+		a.apply(u)
+		if op == vOpSnapshot {
+			vReach("snapshot")
+		}
+	}
+	return nil
+}
+
+// vTanCheck compares what the store reports for replica m with the model.
+func vTanCheck(l *LogDB, m *vTanNode, tag string) {
+	lastIndex := m.compactedTo
+	if len(m.log) > 0 && m.ss.Index > lastIndex && m.ss.Index+1 >= m.first && m.ss.Index <= m.last() {
+		if vBool("readFromSnapshot") {
+			lastIndex = m.ss.Index
+		}
+	}
+	if len(m.log) > 0 && lastIndex+1 < m.first {
+		lastIndex = m.first - 1
+	}
+	rs, err := l.ReadRaftState(m.shard, m.replica, lastIndex)
+	if !m.hasState {
+		vAssert(err == raftio.ErrNoSavedLog, tag+"no-saved-log-for-a-node-without-data")
+		ents, _, err := l.IterateEntries(nil, 0, m.shard, m.replica, 1, 4, 1<<40)
+		vAssert(err == nil && len(ents) == 0, tag+"no-entries-for-a-node-without-data")
+		return
+	}
+	vAssert(err == nil, tag+"read-state-ok")
+	vAssert(rs.State.Term == m.state.Term && rs.State.Vote == m.state.Vote && rs.State.Commit == m.state.Commit, tag+"hard-state-is-the-last-saved")
+	if len(m.log) > 0 && lastIndex < m.last() {
+		vAssert(rs.FirstIndex == lastIndex+1 && rs.EntryCount == m.last()-lastIndex, tag+"first-index-and-length")
+	} else {
+		vAssert(rs.EntryCount == 0, tag+"no-entries-past-the-logical-end")
+	}
+	ss, err := l.GetSnapshot(m.shard, m.replica)
+	vAssert(err == nil && ss.Index == m.ss.Index && ss.Term == m.ss.Term, tag+"newest-snapshot-record")
+	if len(m.log) == 0 {
+		return
+	}
+	lo := m.first
+	if m.compactedTo >= lo {
+		lo = m.compactedTo + 1
+	}
+	if lo > m.last() {
+		return
+	}
+	// every start index, ranges ending inside, at and beyond the logical end
+	// (all in this path: the queries do not fork)
+	type vq struct{ low, high, maxSize uint64 }
+	qs := []vq{{lo, lo + 1, 1 << 40}, {lo, m.last() + 1, 1}}
+	for low := lo; low <= m.last(); low++ {
+		qs = append(qs, vq{low, m.last() + 3, 1 << 40}) // every start index, to beyond the logical end
+	}
+	for _, q := range qs {
+		low, high := q.low, q.high
+		ents, _, err := l.IterateEntries(nil, 0, m.shard, m.replica, low, high, q.maxSize)
+		vAssert(err == nil, tag+"iterate-ok")
+		want := high
+		if want > m.last()+1 {
+			want = m.last() + 1
+		}
+		if q.maxSize == 1 {
+			vAssert(len(ents) >= 1 && uint64(len(ents)) <= want-low, tag+"size-limit-shortens-but-never-empties")
+		} else {
+			vAssert(uint64(len(ents)) == want-low, tag+"range-length")
+		}
+		for i := range ents {
+			vAssert(ents[i].Index == low+uint64(i), tag+"range-contiguous")
+			vAssert(ents[i].Index <= m.last(), tag+"never-past-the-logical-end")
+			if ents[i].Index <= m.last() {
+				vAssert(ents[i].Term == m.log[ents[i].Index-m.first].Term, tag+"never-a-stale-overwritten-entry")
+			}
+		}
+	}
+}
+
+// C09 (Tan, regular and multiplexed): after any sequence of saves, removals
+// and close/reopen the store reports the logical log, for both replicas.
+//vcheck: props=C04 reach=overwrite,snapshot,remove-entries,remove-node,reopened,done workers=16 steps=3000000
+func VHarness_C09_TanModel() {
+	env := vNewTanEnv()
+	l, err := env.open()
+	vAssert(err == nil, "open-ok")
+	ms := []*vTanNode{{shard: 1, replica: 1}, {shard: 1, replica: 2}}
+	uds := vTanFirstSave(ms)
+	vAssert(l.SaveRaftState(uds, 1) == nil, "first-save-ok")
+	for i, m := range ms {
+		m.apply(uds[i])
+	}
+	steps := 2 + vTier()
+	for i := 0; i < steps; i++ {
+		nfiles := vTanObsolete(l)
+		vAssert(vTanStep(l, ms, vOpCount) == nil, "operation-ok")
+		if vTanObsolete(l) != nfiles && vBool("bgDelete") {
+			vTanBgDelete(l)
+		}
+	}
+	for _, m := range ms {
+		vTanCheck(l, m, "")
+	}
+	vAssert(l.Close() == nil, "close-ok")
+	l, err = env.open()
+	vAssert(err == nil, "reopen-ok")
+	if vTanObsolete(l) > 0 && vBool("bgDeleteAfterReopen") {
+		vTanBgDelete(l)
+	}
+	vReach("reopened")
+	for _, m := range ms {
+		vTanCheck(l, m, "reopened-")
+	}
+	vReach("done")
+}
+
+// C09 (Tan, multiplexed): removing one replica's data must leave the other
+// replica of the shared db intact.  (Known finding F6 on the pinned tree:
+// removeAllLocked drops every older log file of the shared db.)
+//vcheck: reach=done workers=8
+func VHarness_C09_TanMultiplexedRemoveNode() {
+	mem := gvfs.NewStrictMem()
+	env := &vTanEnv{mem: mem, inj: &vInj{mem: mem, crashAt: -1, failAt: -1}}
+	env.fs = gvfs.Wrap(mem, env.inj)
+	rollover := vBool("rolloverEverySave")
+	if rollover {
+		env.logMax = 1
+	}
+	l, err := env.open()
+	vAssert(err == nil, "open-ok")
+	ms := []*vTanNode{{shard: 1, replica: 1}, {shard: 1, replica: 2}}
+	uds := vTanFirstSave(ms)
+	vAssert(l.SaveRaftState(uds, 1) == nil, "first-save-ok")
+	for i, m := range ms {
+		m.apply(uds[i])
+	}
+	if !rollover || vBool("reopenFirst") {
+		// every open starts a new log file
+		vAssert(l.Close() == nil, "close-ok")
+		l, err = env.open()
+		vAssert(err == nil, "reopen-ok")
+	}
+	vAssert(l.RemoveNodeData(1, 2) == nil, "remove-node-ok")
+	*ms[1] = vTanNode{shard: 1, replica: 2, removed: true}
+	switch vChoose("then", 3) {
+	case 0:
+		vTanBgDelete(l)
+	case 1:
+		vAssert(l.Close() == nil, "close-ok")
+		l, err = env.open()
+		vAssert(err == nil, "reopen-ok")
+	}
+	vTanCheck(l, ms[0], "F6-other-replica-")
+	vTanCheck(l, ms[1], "removed-replica-")
+	vReach("done")
+}
+
+// vTanSame reports whether the store's view of replica m equals model m in
+// everything a crash must preserve (term, vote, log, snapshot record; the
+// commit index is written without fsync by design and is not compared).
+func vTanSame(l *LogDB, m *vTanNode) bool { return vTanDiff(l, m) == "" }
+
+// vTanDiff names the first component in which the store differs from model m.
+func vTanDiff(l *LogDB, m *vTanNode) string {
+	rs, err := l.ReadRaftState(m.shard, m.replica, 0)
+	if !m.hasState {
+		if err == raftio.ErrNoSavedLog {
+			return ""
+		}
+		return "state-present-for-a-node-without-data"
+	}
+	if err != nil {
+		return "no-readable-hard-state"
+	}
+	if rs.State.Term != m.state.Term || rs.State.Vote != m.state.Vote {
+		return "term-or-vote"
+	}
+	ss, err := l.GetSnapshot(m.shard, m.replica)
+	if err != nil || ss.Index != m.ss.Index || ss.Term != m.ss.Term {
+		return "snapshot-record"
+	}
+	if len(m.log) == 0 {
+		if rs.EntryCount == 0 {
+			return ""
+		}
+		return "entries-present"
+	}
+	ents, _, err := l.IterateEntries(nil, 0, m.shard, m.replica, m.first, m.last()+8, 1<<40)
+	if err != nil {
+		return "entries-unreadable"
+	}
+	if len(ents) != len(m.log) {
+		return "entry-count"
+	}
+	for i := range ents {
+		if ents[i].Index != m.log[i].Index || ents[i].Term != m.log[i].Term {
+			return "entry-content"
+		}
+	}
+	return ""
+}
+
+// C10/C04 (Tan): crash before a symbolic fsync (everything not synced is
+// dropped), then reopen: every save that had returned is completely readable
+// (term, vote, entries, snapshot record), the interrupted save is per replica
+// completely visible or completely absent.
+//vcheck: props=C04 reach=crash-during-open,crash-during-save,crash-after-all,interrupted-visible,interrupted-absent,done workers=16
+func VHarness_C10_TanCrash() {
+	env := vNewTanEnv()
+	env.inj.crashAt = vInt("crashAtSync")
+	vAssume(env.inj.crashAt >= 0)
+	vAssume(env.inj.crashAt <= 64)
+	ms := []*vTanNode{{shard: 1, replica: 1}, {shard: 1, replica: 2}}
+	acked := []*vTanNode{ms[0].clone(), ms[1].clone()}
+	l, err := env.open()
+	interrupted := false
+	if env.inj.crashed {
+		vReach("crash-during-open")
+	} else {
+		vAssert(err == nil, "open-ok")
+		uds := vTanFirstSave(ms)
+		err = l.SaveRaftState(uds, 1)
+		for i, m := range ms {
+			m.apply(uds[i])
+		}
+		steps := 1 + vTier()
+		for i := 0; !env.inj.crashed && i <= steps; i++ {
+			vAssert(err == nil, "save-ok")
+			acked = []*vTanNode{ms[0].clone(), ms[1].clone()}
+			if i == steps {
+				break
+			}
+			err = vTanStep(l, ms, vOpRemoveEntries) // saves only
+		}
+		if env.inj.crashed {
+			interrupted = true
+			vReach("crash-during-save")
+		} else {
+			vReach("crash-after-all")
+		}
+	}
+	// power failure: nothing after this instant reaches the disk
+	env.mem.SetIgnoreSyncs(true)
+	env.mem.ResetToSyncedState()
+	env.mem.SetIgnoreSyncs(false)
+	env.inj.crashAt = -1
+	l2, err := env.open()
+	vAssert(err == nil, "restart-after-crash-ok")
+	sawNext := false
+	for i := range ms {
+		okAcked := vTanSame(l2, acked[i])
+		if okAcked {
+			continue
+		}
+		if !interrupted {
+			vAssert(false, "acknowledged-save-is-completely-readable-after-a-crash:"+vTanDiff(l2, acked[i]))
+		} else if d := vTanDiff(l2, ms[i]); d != "" {
+			vAssert(false, "interrupted-save-is-all-or-nothing-per-replica:"+vTanDiff(l2, acked[i])+"/"+d)
+		} else {
+			sawNext = true
+		}
+	}
+	if sawNext {
+		vReach("interrupted-visible")
+	} else if interrupted {
+		vReach("interrupted-absent")
+	}
+	// the recovered store accepts new saves
+	u := pb.Update{ShardID: 1, ReplicaID: 1, State: pb.State{Term: 127, Vote: 1, Commit: 1}}
+	vAssert(l2.SaveRaftState([]pb.Update{u}, 1) == nil, "save-after-recovery-ok")
+	rs, err := l2.ReadRaftState(1, 1, 0)
+	vAssert(err == nil && rs.State.Term == 127, "save-after-recovery-readable")
+	vReach("done")
+}
+
+// C10 (Tan): an I/O error reported by the file system during a save makes the
+// save fail (error or panic); it never returns success.
+//vcheck: reach=injected,not-reached,done workers=16 allow="injected error"
+func VHarness_C10_TanIOError() {
+	env := vNewTanEnv()
+	l, err := env.open()
+	vAssert(err == nil, "open-ok")
+	ms := []*vTanNode{{shard: 1, replica: 1}, {shard: 1, replica: 2}}
+	uds := vTanFirstSave(ms)
+	vAssert(l.SaveRaftState(uds, 1) == nil, "first-save-ok")
+	for i, m := range ms {
+		m.apply(uds[i])
+	}
+	env.inj.failAt = vChoose("failAtOp", 12)
+	env.inj.armed = true
+	err = vTanStep(l, ms, vOpRemoveEntries)
+	env.inj.armed = false
+	if env.inj.failed {
+		vReach("injected")
+		vAssert(err != nil, "io-error-during-save-is-reported")
+	} else {
+		vReach("not-reached")
+		vAssert(err == nil, "save-ok")
+	}
 	vReach("done")
 }
